@@ -54,12 +54,26 @@ fn cmd_defs(out: &Path, files: &[PathBuf]) {
     std::panic::set_hook(Box::new(|_| {}));
     for (fi, f) in files.iter().enumerate() {
         let Ok(text) = std::fs::read_to_string(f) else { continue };
-        let Ok(file) = syn::parse_file(&text) else {
-            writeln!(index, "unparsed {}", f.display()).unwrap();
-            continue;
-        };
         let mut finder = Finder { found: vec![] };
-        finder.visit_file(&file);
+        match syn::parse_file(&text) {
+            Ok(file) => finder.visit_file(&file),
+            Err(_) => {
+                // fall back to one item per line (generated corpora are written that way), so that one
+                // syntactically broken definition does not hide all the others
+                let mut bad = 0;
+                for line in text.lines() {
+                    match syn::parse_str::<syn::Item>(line) {
+                        Ok(item) => finder.visit_item(&item),
+                        Err(_) => {
+                            if !line.trim().is_empty() {
+                                bad += 1;
+                            }
+                        }
+                    }
+                }
+                writeln!(index, "unparsed-lines {} {}", bad, f.display()).unwrap();
+            }
+        }
         for (ei, e) in finder.found.iter().enumerate() {
             let id = format!("f{fi:03}e{ei:02}_{}", e.ident);
             let ts = e.to_token_stream();
